@@ -432,6 +432,99 @@ fn stress(c: &Ctx, threads: usize, rounds: usize) {
     }
 }
 
+/// Uncontrolled: handles dropped (without flush) or flushed while the lock is busy still write back - every byte that
+/// went through a write/append handle is in its file once all threads are done (a write-back that gives up when
+/// the guard is contended, instead of waiting for it, loses the data silently and never shows single-threaded)
+fn handle_stress(c: &Ctx, rounds: usize) {
+    for round in 0..rounds {
+        let m = Memfs::new();
+        let _ = m.mkdir_p("/h");
+        let _ = m.mkdir_p("/busy/a/b");
+        for i in 0..40 {
+            let _ = m.write_all(format!("/busy/a/f{}", i), b"x");
+        }
+        let v = std::sync::Arc::new(m.upcast());
+        let stop = std::sync::atomic::AtomicBool::new(false);
+        const WRITERS: usize = 3;
+        const FILES_PER_WRITER: usize = 400;
+        std::thread::scope(|sc| {
+            // lock pressure: listings (read guards) and writes elsewhere (write guards)
+            for t in 0..4usize {
+                let v = v.clone();
+                let stop = &stop;
+                sc.spawn(move || {
+                    let mut i = 0usize;
+                    while !stop.load(std::sync::atomic::Ordering::Relaxed) {
+                        if t % 2 == 0 {
+                            let _ = v.all_paths("/busy");
+                            let _ = v.read_all("/busy/a/f1");
+                        } else {
+                            let _ = v.write_all(format!("/busy/a/f{}", i % 40), vec![b'y'; 4096]);
+                        }
+                        i += 1;
+                    }
+                });
+            }
+            let mut ws = vec![];
+            for t in 0..WRITERS {
+                let v = v.clone();
+                ws.push(sc.spawn(move || {
+                    for i in 0..FILES_PER_WRITER {
+                        let p = format!("/h/w{}-{}", t, i);
+                        match i % 3 {
+                            // write handle, dropped without flush
+                            0 => {
+                                if let Ok(mut h) = v.write(&p) {
+                                    let _ = h.write_all(format!("W{}-{}", t, i).as_bytes());
+                                }
+                            },
+                            // append handle on an existing file, dropped without flush
+                            1 => {
+                                let _ = v.write_all(&p, b"base+");
+                                if let Ok(mut h) = v.append(&p) {
+                                    let _ = h.write_all(format!("A{}-{}", t, i).as_bytes());
+                                }
+                            },
+                            // write handle, flushed explicitly then dropped
+                            _ => {
+                                if let Ok(mut h) = v.write(&p) {
+                                    let _ = h.write_all(format!("F{}-{}", t, i).as_bytes());
+                                    let _ = h.flush();
+                                }
+                            },
+                        }
+                    }
+                }));
+            }
+            for w in ws {
+                let _ = w.join();
+            }
+            stop.store(true, std::sync::atomic::Ordering::Relaxed);
+        });
+        c.eval(1);
+        c.nontrivial(fp(&("handle-stress", round)));
+        c.class("stress:handle-write-back-under-load");
+        let mut r: CaseResult = Ok(());
+        'outer: for t in 0..WRITERS {
+            for i in 0..FILES_PER_WRITER {
+                let p = format!("/h/w{}-{}", t, i);
+                let want = match i % 3 {
+                    0 => format!("W{}-{}", t, i),
+                    1 => format!("base+A{}-{}", t, i),
+                    _ => format!("F{}-{}", t, i),
+                };
+                let got = v.read_all(&p).ok();
+                if got.as_deref() != Some(want.as_str()) {
+                    let how = ["write-handle-dropped", "append-handle-dropped", "write-handle-flushed"][i % 3];
+                    r = Err(Failure::new(format!("stress|handle-write-back-lost-under-load|{}", how), format!("{} holds {:?} after all threads finished, want {:?} (the handle's owner was the only writer of that file)", p, got, want)));
+                    break 'outer;
+                }
+            }
+        }
+        c.judge("stress-handles", &json!({"round": round}), r);
+    }
+}
+
 /// Uncontrolled: queries about entries nobody touches keep giving the one answer every sequential order gives,
 /// however busy the lock is (a query that gives up instead of waiting for the guard would not)
 fn bystander_stress(c: &Ctx, rounds: usize) {
@@ -532,7 +625,7 @@ fn bystander_stress(c: &Ctx, rounds: usize) {
 }
 
 pub fn run(c: &Ctx) {
-    c.set_rule("controlled scheduler on hook H1: real threads park before every MemfsGuard acquisition and exactly one is released at a time, so an execution is a function of (seed state, program, schedule). For every program ALL interleavings at critical-section granularity are enumerated depth-first (cap per program noted). Programs: quick = all 2-thread programs with (1,1) calls over a 15-form core alphabet and a seeded quarter of the (2,1) programs from a populated seed state, all 448 'two mutators of one directory vs one listing/reader' programs, and all (1,1) programs over the full 45-form alphabet from two more seed states (nested dirs + link; cwd below root); thorough = all (1,1),(2,1) over the 45-form alphabet, seeded samples of (2,2),(1,1,1),(2,1,1), four seed states, plus (both tiers) every rich call form of the VFS trait on every path of a seed state as a one-thread program (guard discipline: nesting is a property of the call alone) and every listed single-step call form on every path of that state racing each of 8 mutators (quick: a seeded half), relative-path forms racing cwd changes, attribute queries racing replacing moves / chown / chmod on a seed state with distinct modes and owners, plus 147 programs 'write/append handle session vs two calls that remove / replace its file' (no sequential equivalence claimed for the composite: no panic, no poisoned lock, no dead-lock, integrity); about half of all programs run through the Vfs enum wrapper instead of the Memfs value; plus uncontrolled runs: (both tiers) 2/12 rounds in which three threads write 256 KiB payloads to their own paths while two threads ask 12 000 times about entries nobody touches (every answer must be the one every sequential order gives); (thorough) 8-thread stress rounds. Oracle per execution: no nested guard acquisition (would dead-lock), no panic, every call returns, C03 invariants at quiescence, every successful append_all payload exactly once, and linearizability: per-call results (Ok values; Err-ness) and the final tree equal those of SOME sequential order of the same calls on a fresh instance that respects program order and real-time precedence. Non-trivial = execution in which calls of different threads overlap in time and one mutates; distinct by (seed, program, schedule).");
+    c.set_rule("controlled scheduler on hook H1: real threads park before every MemfsGuard acquisition and exactly one is released at a time, so an execution is a function of (seed state, program, schedule). For every program ALL interleavings at critical-section granularity are enumerated depth-first (cap per program noted). Programs: quick = all 2-thread programs with (1,1) calls over a 15-form core alphabet and a seeded quarter of the (2,1) programs from a populated seed state, all 448 'two mutators of one directory vs one listing/reader' programs, and all (1,1) programs over the full 45-form alphabet from two more seed states (nested dirs + link; cwd below root); thorough = all (1,1),(2,1) over the 45-form alphabet, seeded samples of (2,2),(1,1,1),(2,1,1), four seed states, plus (both tiers) every rich call form of the VFS trait on every path of a seed state as a one-thread program (guard discipline: nesting is a property of the call alone) and every listed single-step call form on every path of that state racing each of 8 mutators (quick: a seeded half), relative-path forms racing cwd changes, attribute queries racing replacing moves / chown / chmod on a seed state with distinct modes and owners, plus 147 programs 'write/append handle session vs two calls that remove / replace its file' (no sequential equivalence claimed for the composite: no panic, no poisoned lock, no dead-lock, integrity); about half of all programs run through the Vfs enum wrapper instead of the Memfs value; plus uncontrolled runs: (both tiers) 2/12 rounds in which three threads write 256 KiB payloads to their own paths while two threads ask 12 000 times about entries nobody touches (every answer must be the one every sequential order gives); (both tiers) 2/12 rounds in which three threads put 1200 files through write/append handles (dropped without flush, or flushed) while four threads keep the lock busy with listings and writes elsewhere - at quiescence every handle's bytes are in its file; (thorough) 8-thread stress rounds. Oracle per execution: no nested guard acquisition (would dead-lock), no panic, every call returns, C03 invariants at quiescence, every successful append_all payload exactly once, and linearizability: per-call results (Ok values; Err-ness) and the final tree equal those of SOME sequential order of the same calls on a fresh instance that respects program order and real-time precedence. Non-trivial = execution in which calls of different threads overlap in time and one mutates; distinct by (seed, program, schedule).");
     c.assume("all shared state of Memfs is behind the one RwLock (safe Rust): interleavings at guard granularity are complete; sequential specification = Memfs itself run single-threaded (functional correctness is C01's job)");
     install_hook();
     let quick = c.tier == Tier::Quick;
@@ -747,6 +840,7 @@ pub fn run(c: &Ctx) {
     });
     c.note("controlled_executions", execs.load(std::sync::atomic::Ordering::Relaxed));
     bystander_stress(c, c.tier.pick(2, 12));
+    handle_stress(c, c.tier.pick(2, 12));
     if !quick {
         stress(c, 8, 40);
     }
@@ -755,6 +849,7 @@ pub fn run(c: &Ctx) {
 pub fn replay(kind: &str, case: &Value) -> Option<CaseResult> {
     match kind {
         "stress-bystander" => Some(Ok(())), // schedule dependent: re-run the check itself
+        "stress-handles" => Some(Ok(())), // schedule dependent: re-run the check itself
         "sched" => {
             install_hook();
             let sc: SchedCase = serde_json::from_value(case.clone()).ok()?;
